@@ -12,12 +12,12 @@ import (
 )
 
 var c02Alphabet = map[string][]string{
-	ClsStr: {"a", "", "Zoë 日本 😀", "with \"quotes\" \\ and \n newline <>& \u0001", "not@an email", "12345", "US$5 $x", "true", strings.Repeat("long value ", 120)},
+	ClsStr:   {"a", "", "Zoë 日本 😀", "with \"quotes\" \\ and \n newline <>& \u0001", "not@an email", "12345", "US$5 $x", "true", strings.Repeat("long value ", 120)},
 	ClsEmail: {"a.b+c@sub.domain.org", "x@y.co", "USER_1@EXAMPLE.COM", strings.Repeat("l", 60) + "@" + strings.Repeat("d", 40) + ".example.org"},
-	ClsDate: {"2024-01-01T00:00:00Z", "1999-12-31T23:59:59.999+05:30", "not a date", ""},
-	ClsOid:  {"000000000000000000000001", "ffffffffffffffffffffffff", "xyz", ""},
-	ClsBin:  {"AA==", "SGVsbG8gd29ybGQ=", "", "not base64 !"},
-	ClsNum:  {"0", "1", "-1", "9223372036854775808", "1e-9", "1.50e+3"},
+	ClsDate:  {"2024-01-01T00:00:00Z", "1999-12-31T23:59:59.999+05:30", "not a date", ""},
+	ClsOid:   {"000000000000000000000001", "ffffffffffffffffffffffff", "xyz", ""},
+	ClsBin:   {"AA==", "SGVsbG8gd29ybGQ=", "", "not base64 !"},
+	ClsNum:   {"0", "1", "-1", "9223372036854775808", "1e-9", "1.50e+3"},
 }
 
 func c02Set(n *LNode, class, alt string) {
@@ -62,7 +62,10 @@ func c02Run(c *Ctx) {
 			focus[f] = true
 		}
 		// save originals
-		type orig struct{ str, num string; b bool }
+		type orig struct {
+			str, num string
+			b        bool
+		}
 		saved := map[*LNode]orig{}
 		for _, s := range live {
 			saved[s] = orig{s.Str, s.Num, s.Bool}
@@ -193,7 +196,7 @@ func c02Run(c *Ctx) {
 func init() {
 	register(&PropDef{
 		ID: "C02", Level: "exploration",
-		Rule: "every line skeleton of G at <=1 non-default production (thorough <=2) x placeholder-mode flag sets; for each skeleton the explorer enumerates the re-assignments of its SECRET leaves within their class: fillers jointly re-assigned or not x each focused literal taking every alternative of its class alphabet (9 ordinary strings incl. empty, 1.3 KB, JSON metacharacters, '@' without e-mail shape; 4 e-mails; 4 $date / $oid / base64 contents; 6 numbers under N; both booleans under B), up to 2 leaves deviating; oracle = byte-identical output. distinct = skeleton lines with at least one SECRET leaf",
+		Rule:        "every line skeleton of G at <=1 non-default production (thorough <=2) x placeholder-mode flag sets; for each skeleton the explorer enumerates the re-assignments of its SECRET leaves within their class: fillers jointly re-assigned or not x each focused literal taking every alternative of its class alphabet (9 ordinary strings incl. empty, 1.3 KB, JSON metacharacters, '@' without e-mail shape; 4 e-mails; 4 $date / $oid / base64 contents; 6 numbers under N; both booleans under B), up to 2 leaves deviating; oracle = byte-identical output. distinct = skeleton lines with at least one SECRET leaf",
 		Assumptions: []string{"class membership follows DESIGN.md 3.0: borderline e-mail shapes are never used as members of a class", "encrypt and selective modes are outside the property"},
 		Run:         c02Run,
 	})
